@@ -114,9 +114,12 @@ pub fn run_corpus(
                         fr_only && errs.iter().any(|e| e.tag.as_deref() == Some("def") && e.code.is_some())
                     }
                 };
+                // a plain program (documented constructs only, spelled the ordinary way) must build: whoever rejects
+                // it - rustc or the derive itself - the property's domain has shrunk
+                let plain = items.iter().find(|i| i.spec.name == en).map(|i| vmodel::plain::is_plain(&i.spec)).unwrap_or(false);
                 let is_violation = match plan.policy {
                     Policy::AllErrors => true,
-                    Policy::TaggedOnly => errs.iter().all(mine) || broken_expansion,
+                    Policy::TaggedOnly => errs.iter().all(mine) || broken_expansion || plain,
                 };
                 if removed.insert(en.clone()) {
                     progress = true;
@@ -126,7 +129,13 @@ pub fn run_corpus(
                     let spec = items.iter().find(|i| i.spec.name == en).map(|i| i.spec.clone());
                     let first = if broken_expansion && !errs.iter().all(mine) { errs.iter().find(|e| e.tag.as_deref() == Some("def")).copied().unwrap_or(first) } else { first };
                     out.violations.push(Violation {
-                        kind: if broken_expansion && !errs.iter().all(mine) { "compile:generated-code-rejected-by-rustc".to_string() } else { format!("compile:{}", first.tag.clone().unwrap_or_else(|| "error".into())) },
+                        kind: if broken_expansion && !errs.iter().all(mine) {
+                            "compile:generated-code-rejected-by-rustc".to_string()
+                        } else if !errs.iter().all(mine) {
+                            "compile:documented-input-rejected-by-derive".to_string()
+                        } else {
+                            format!("compile:{}", first.tag.clone().unwrap_or_else(|| "error".into()))
+                        },
                         enum_name: en.clone(),
                         spec,
                         detail: json!({"message": first.message, "rendered": first.rendered, "line": first.line}),
@@ -364,6 +373,9 @@ fn run_check(env: &Env, id: &str, tier: &str, seed: u64) -> i32 {
                 out.rule = plan.rule.clone();
                 out.assumptions = plan.assumptions.clone();
                 let items: Vec<Item> = plan.specs.iter().map(|s| Item { spec: s.clone(), module: props::module_for(id, s) }).collect();
+                let n_plain = plan.specs.iter().filter(|s| vmodel::plain::is_plain(s)).count() as u64;
+                let prev = out.extra.get("plain_programs").and_then(|v| v.as_u64()).unwrap_or(0);
+                out.extra.insert("plain_programs".into(), json!(prev + n_plain));
                 run_corpus(env, id, "main", &plan, &items, tier, seed, None, &mut out);
                 if out.inconclusive.is_some() || out.violations.iter().any(|v| !open_findings.iter().any(|f| matches_finding(f, id, v))) {
                     break;
